@@ -4,6 +4,7 @@ package app
 
 import (
 	"context"
+	"log/slog"
 	"net/http"
 	"time"
 
@@ -29,7 +30,7 @@ func VerifC15Start(compiled config.Compiled, store queue.Store) (*VerifC15Runnin
 	}
 	metrics := newRuntimeMetrics()
 	metrics.queueStore = store
-	servers, err := startServers(store, compiled, state, newDiscardLogger(), nil, metrics, nil, nil, func() {})
+	servers, err := startServers(store, compiled, state, newDiscardLogger(), verifAccessLogger(compiled), metrics, nil, nil, func() {})
 	if err != nil {
 		return nil, err
 	}
@@ -67,4 +68,14 @@ func VerifC07Dispatcher(compiled config.Compiled, store queue.Store) *dispatcher
 		Routes:    routes,
 		Logger:    newDiscardLogger(),
 	}
+}
+
+// verifAccessLogger is the access logger run() hands to startServers: present when the configuration enables the access log (the
+// default), writing to a discarding sink instead of stderr / a file.  With it the handlers are wrapped by withAccessLog as in the
+// real binary.
+func verifAccessLogger(compiled config.Compiled) *slog.Logger {
+	if !compiled.Observability.AccessLogEnabled {
+		return nil
+	}
+	return newDiscardLogger().With(slog.String("sink", "discard"))
 }
